@@ -4,6 +4,7 @@
 
 #[macro_use]
 mod engine;
+mod doubles;
 mod props;
 mod util;
 
@@ -39,6 +40,11 @@ fn main() {
             "--seed" => {
                 i += 1;
                 seed = args.get(i).and_then(|s| s.parse::<i128>().ok()).map(|v| v as u64).unwrap_or(seed);
+            }
+            "--child" => {
+                i += 1;
+                let seed = args.get(i).and_then(|s| s.parse::<u64>().ok()).unwrap_or(0);
+                std::process::exit(props::child(id, seed));
             }
             "--replay" => {
                 i += 1;
